@@ -12,13 +12,16 @@ import ScyllaVerif.Model.TabletsRefresh
     `m<removed>/<recreated>`      `TableTablets::perform_maintenance`; `<removed>` = ids, `<recreated>` = `<id>@<dc>` / `<id>`
     `t`                           dump `[<tablet>|…]u<unresolved>s<stale>`
     `A<ks>.<table>:<first>:<last>:<reps>`   `TabletsInfo::add_tablet`
-    `M<ks>:<0|1>:<t>+<t>&…/<removed>/<recreated>`   `TabletsInfo::perform_maintenance`
+    `M<ks>:<0|1>:<t>+<t>[:<view>+<view>]&…/<removed>/<recreated>`   `TabletsInfo::perform_maintenance`
     `T`                           dump of every table of the `TabletsInfo`, sorted, then `u<unresolved>s<stale>`
     `Q<ks>.<table>:<token>`       `tablets_for_table(..).replicas_for_token(..)`
     `D<ks>.<table>:<token>@<dc>`  `tablets_for_table(..).dc_replicas_for_token(..)`
 * `cs <op>;<op>;…` — one history on a real `ClusterState` (tablet keyspace `k0` with tables `t0`, `t1`):
-    `P<peer>,<peer>…`             first: `ClusterState::new`; later: a metadata refresh (`new_updated`); a peer is
-                                  `<id>[@<dc>[/<rack>]]`, its address is its position in the list → `P<ids whose Node object was kept>`
+    `P<peer>,<peer>…[!<schema>]`  first: `ClusterState::new`; later: a metadata refresh (`new_updated`); a peer is
+                                  `<id>[@<dc>[/<rack>]]`, its address is its position in the list; `<schema>` = `x` (no keyspace),
+                                  `-` (`k0` not tablet-based), `<tables>/<views>` (default `t0+t1/`)
+                                  → `P<ids whose Node object was kept>|<tables of the tablet map with their sizes>`
+    `N<peer>,<peer>…`             `new_with_updated_topology` (peers only, keyspaces of the current state) → `N…` likewise
     `L<t>:<first>:<last>:<reps>`  `ClusterState::update_tablets` with one tablet for table `t<t>`
     `B<item>|<item>|…`            ONE `update_tablets` call with the whole batch, items `<t>:<first>:<last>:<reps>` in order
     `s<t>:<lo>:<hi>`              `replica_locator().replicas_for_token` for every token of `lo..=hi`, joined by `/`
@@ -99,13 +102,24 @@ def insertSorted (e : (String × String) × Table) : List ((String × String) ×
   | x :: rest =>
     if e.1.1 < x.1.1 || (e.1.1 == x.1.1 && e.1.2 < x.1.2) then e :: x :: rest else x :: insertSorted e rest
 
-def parseKeyspace (s : String) : Option (String × Bool × List String) :=
+def parseNames (s : String) : List String := if s == "" then [] else s.splitOn "+"
+
+/-- `<ks>:<0|1>:<tables>[:<views>]` -/
+def parseKeyspace (s : String) : Option KsMeta :=
   match s.splitOn ":" with
   | [name, flag, tables] =>
-    if flag == "1" then some (name, true, if tables == "" then [] else tables.splitOn "+")
-    else if flag == "0" then some (name, false, if tables == "" then [] else tables.splitOn "+")
+    if flag == "1" then some ⟨name, true, parseNames tables, []⟩
+    else if flag == "0" then some ⟨name, false, parseNames tables, []⟩
+    else none
+  | [name, flag, tables, views] =>
+    if flag == "1" then some ⟨name, true, parseNames tables, parseNames views⟩
+    else if flag == "0" then some ⟨name, false, parseNames tables, parseNames views⟩
     else none
   | _ => none
+
+/-- `collect::<HashMap<_, _>>()`: a repeated keyspace name keeps the last entry (at the first one's place) -/
+def dedupKs (kss : List KsMeta) : List KsMeta :=
+  kss.foldl (fun acc k => if acc.any (·.name == k.name) then acc.map (fun x => if x.name == k.name then k else x) else acc ++ [k]) []
 
 def scanTokens (xs : List Tablet) : Nat → Int → List String
   | 0, _ => []
@@ -175,10 +189,9 @@ def tabOp (w : World) (op : String) : Option (World × String) :=
       | [kss, rm, rc] =>
         match parseList "&" parseKeyspace kss, parseList "," String.toNat? rm, parseList "," parseNodeDc rc with
         | some kss, some removed, some recreated =>
-          -- `collect::<HashMap<_, _>>()`: a repeated keyspace name keeps the last entry
-          let keyspaces := kss.foldl (fun acc ks => alSet ks.1 ks.2 acc) ([] : List (String × Bool × List String))
+          let keyspaces := dedupKs kss
           let (w1, recMap) := applyTopology w removed recreated
-          let inf := w1.info.maintenance keyspaces removed w1.nodes recMap
+          let inf := w1.info.maintenanceKs keyspaces removed w1.nodes recMap
           let all := inf.tables.flatMap (·.2.tablets)
           some ({ w1 with info := inf }, s!"M{unresolved all}:{staleCount w1.nodes all}")
         | _, _, _ => none
@@ -329,58 +342,100 @@ def insertNat (x : Nat) : List Nat → List Nat
   | [] => [x]
   | y :: ys => if x ≤ y then x :: y :: ys else y :: insertNat x ys
 
-def csKeyspaces : List (String × Bool × List String) := [("k0", true, ["t0", "t1"])]
+/-- the schema part of a `P` op: absent = `k0` with tables `t0`, `t1`; `x` = no keyspace; `-` = `k0` exists but is not
+tablet-based; `<tables>/<views>` = tablet-based `k0` with these tables and materialized views -/
+def parseCsSchema (s : Option String) : Option (List KsMeta) :=
+  match s with
+  | none => some [⟨"k0", true, ["t0", "t1"], []⟩]
+  | some "x" => some []
+  | some "-" => some [⟨"k0", false, [], []⟩]
+  | some cfg =>
+    match cfg.splitOn "/" with
+    | [tables, views] =>
+      let ts := parseNames tables
+      let vs := parseNames views
+      if (ts ++ vs).all (fun n => n == "t0" || n == "t1") then some [⟨"k0", true, ts, vs⟩] else none
+    | _ => none
 
-def csTable (cs : CState) (t : String) : Option (List Tablet) :=
-  if t == "0" || t == "1" then (alGet ("k0", "t" ++ t) cs.info.tables).map (·.tablets) else none
+structure CsSt where
+  cs : CState
+  /-- the keyspaces of the current state (`new_with_updated_topology` reuses them) -/
+  kss : List KsMeta
 
-def csScan (xs : List Tablet) : Nat → Int → List String
+def csSpec (t : String) : Option (String × String) :=
+  if t == "0" || t == "1" then some ("k0", "t" ++ t) else none
+
+def csScan (inf : Info) (spec : String × String) : Nat → Int → List String
   | 0, _ => []
-  | n + 1, tok => showReps ((replicasForToken xs (tokenNew tok)).getD []) :: csScan xs n (tok + 1)
+  | n + 1, tok => showReps ((locatorTabletReplicas inf spec (tokenNew tok) none).getD []) :: csScan inf spec n (tok + 1)
 
-def csItem (cs : CState) (s : String) : Option RawItem :=
+def csItem (s : String) : Option RawItem :=
   match s.splitOn ":" with
   | [t, f, l, reps] =>
-    match csTable cs t, f.toInt?, l.toInt?, parseList "," parseRep reps with
-    | some _, some f, some l, some reps =>
-      if tokenNew f > tokenNew l then none else some (("k0", "t" ++ t), tokenNew f, tokenNew l, reps)
+    match csSpec t, f.toInt?, l.toInt?, parseList "," parseRep reps with
+    | some spec, some f, some l, some reps =>
+      if tokenNew f > tokenNew l then none else some (spec, tokenNew f, tokenNew l, reps)
     | _, _, _, _ => none
   | _ => none
 
-def csOp (st : Option CState) (op : String) : Option (CState × String) :=
+def showTableSizes (inf : Info) : String :=
+  let sorted := inf.tables.foldl (fun acc e => insertSorted e acc) []
+  if sorted.isEmpty then "-" else "+".intercalate (sorted.map fun e => s!"{e.1.1}.{e.1.2}:{e.2.tablets.length}")
+
+def csRefresh (cs : CState) (peers : List Peer) (kss : List KsMeta) (topologyOnly : Bool) : CState × String :=
+  -- the hook's nodes are pool-less: they read as not enabled, and the host filter rejects every peer
+  let old : Known := cs.known.map fun e => (e.1, { e.2 with enabled := false })
+  let cs0 := { cs with known := old }
+  let cs' := if topologyOnly then refreshTopology cs0 peers kss else refreshKs cs0 peers kss
+  let kept := cs'.known.foldl (fun acc e =>
+    match alGet e.1 old with
+    | some o => if o.node == e.2.node then insertNat e.1 acc else acc
+    | none => acc) []
+  (cs', natList kept ++ "|" ++ showTableSizes cs'.info)
+
+def csOp (st : Option CsSt) (op : String) : Option (CsSt × String) :=
   match splitOp op with
   | none => none
   | some (c, arg) =>
     if c == 'P' then
-      match parsePeers arg with
-      | none => none
-      | some peers =>
-        let cs := st.getD CState.init
-        -- the hook's nodes are pool-less: they read as not enabled, and the host filter rejects every peer
-        let old : Known := cs.known.map fun e => (e.1, { e.2 with enabled := false })
-        let cs' := refresh { cs with known := old } peers csKeyspaces
-        let kept := cs'.known.foldl (fun acc e =>
-          match alGet e.1 old with
-          | some o => if o.node == e.2.node then insertNat e.1 acc else acc
-          | none => acc) []
-        some (cs', "P" ++ natList kept)
+      let (ps, schema) := match arg.splitOn "!" with
+        | [a] => (a, some none)
+        | [a, b] => (a, some (some b))
+        | _ => (arg, none)
+      match parsePeers ps, schema.bind parseCsSchema with
+      | some peers, some kss =>
+        let (cs', out) := csRefresh ((st.map (·.cs)).getD CState.init) peers kss false
+        some (⟨cs', kss⟩, "P" ++ out)
+      | _, _ => none
     else match st with
     | none => none
-    | some cs =>
-      if c == 'L' || c == 'B' then
+    | some st =>
+      let cs := st.cs
+      if c == 'N' then
+        -- `new_with_updated_topology`: new peers, the keyspaces of the current state
+        match parsePeers arg with
+        | some peers =>
+          let (cs', out) := csRefresh cs peers st.kss true
+          some ({ st with cs := cs' }, "N" ++ out)
+        | none => none
+      else if c == 'L' || c == 'B' then
         -- `L`: a batch of one; `B`: one `update_tablets` call with several tablets, `|`-separated
         let items := if c == 'L' then [arg] else arg.splitOn "|"
-        match items.mapM (csItem cs) with
+        match items.mapM csItem with
         | some batch =>
           let (cs', ok) := learnBatch cs batch
-          some (cs', if ok then String.singleton c else "panic")
+          some ({ st with cs := cs' }, if ok then String.singleton c else "panic")
         | none => none
       else if c == 's' then
         match arg.splitOn ":" with
         | [t, lo, hi] =>
-          match csTable cs t, lo.toInt?, hi.toInt? with
-          | some xs, some lo, some hi =>
-            if lo ≤ hi ∧ hi - lo ≤ 64 then some (cs, "/".intercalate (csScan xs (hi - lo + 1).toNat lo)) else none
+          match csSpec t, lo.toInt?, hi.toInt? with
+          | some spec, some lo, some hi =>
+            if lo ≤ hi ∧ hi - lo ≤ 64 then
+              some (st, match alGet spec cs.info.tables with
+                | none => "notable"
+                | some _ => "/".intercalate (csScan cs.info spec (hi - lo + 1).toNat lo))
+            else none
           | _, _, _ => none
         | _ => none
       else if c == 'd' then
@@ -388,20 +443,23 @@ def csOp (st : Option CState) (op : String) : Option (CState × String) :=
         | [a, dc] =>
           match a.splitOn ":" with
           | [t, tok] =>
-            match csTable cs t, tok.toInt? with
-            | some xs, some tok => some (cs, showReps ((dcReplicasForToken xs (tokenNew tok) dc).getD []))
+            match csSpec t, tok.toInt? with
+            | some spec, some tok =>
+              some (st, match locatorTabletReplicas cs.info spec (tokenNew tok) (some dc) with
+                | none => "notable"
+                | some r => showReps r)
             | _, _ => none
           | _ => none
         | _ => none
       else none
 
 def runCs (ops : List String) : String :=
-  let rec go (st : Option CState) (acc : List String) : List String → Option (List String)
+  let rec go (st : Option CsSt) (acc : List String) : List String → Option (List String)
     | [] => some acc.reverse
     | op :: rest =>
       match csOp st op with
       | none => none
-      | some (cs, out) => go (some cs) (out :: acc) rest
+      | some (st', out) => go (some st') (out :: acc) rest
   match go none [] ops with
   | none => "bad-case"
   | some outs => ";".intercalate outs
